@@ -21,6 +21,8 @@ def pipeline_cases(run):
         topo = rng.choice(['chain', 'chain', 'tee', 'rejoin', 'join', 'topics', 'tee-late'])
         nf = rng.randint(6, 18)
         long_join = it < nlong
+        if nlong + nlate <= it < nlong + nlate + 3:
+            topo = 'topics'         # the three subscription forms of the topics family, every run
         late_sub = nlong <= it < nlong + nlate
         if late_sub:
             # a consumer of two publishers whose subscription to one of them comes up long after its requests got through
@@ -49,14 +51,19 @@ def pipeline_cases(run):
             a0, a1 = pipes.addr(0), pipes.addr(1)
             drop = {q: ['aux'] for q in rng.sample(range(nf), rng.randint(1, 3))}
             empty_at = set(rng.sample(range(nf), rng.randint(0, 2))) - set(drop)
-            remap = rng.random() < 0.5
+            remap = [False, True, 'to-main'][(it - nlong - nlate) % 3] if nlong + nlate <= it < nlong + nlate + 3 else rng.choice([False, True, 'to-main'])
+            #  ('topic>' with nothing after the '>': that topic is received as 'main' - the documented short form)
+            sub = ';aux>' if remap == 'to-main' else ';main;aux>extra' if remap else ';main;aux'
             specs = [dict(id='src', kind='src', n=nf, outputs=a0[0], outputs_required='r1', topics=['main', 'aux']),
                      dict(id='r1', kind='relay', sources=a0[1] + ';main;aux', outputs=a1[0], outputs_required='sink', work=W(),
                           drop=drop, empty_at=empty_at),
-                     dict(id='sink', kind='sink', sources=a1[1] + (';main;aux>extra' if remap else ';main;aux'), work=W())]
+                     dict(id='sink', kind='sink', sources=a1[1] + sub, work=W())]
             ref = {}
             aux = 'extra' if remap else 'aux'
-            want_topics = [[] if q in empty_at else ['main'] if q in drop else sorted(['main', aux]) for q in range(nf)]
+            if remap == 'to-main':
+                want_topics = [[] if q in empty_at or q in drop else ['main'] for q in range(nf)]
+            else:
+                want_topics = [[] if q in empty_at else ['main'] if q in drop else sorted(['main', aux]) for q in range(nf)]
             case.update(drop=sorted(drop), empty_at=sorted(empty_at), remap=remap)
         else:
             a0, a1, a2, a3 = pipes.addr(0), pipes.addr(1), pipes.addr(2), pipes.addr(3)
